@@ -691,7 +691,7 @@ def obligations(tier, only=None):
 
         def work(tg):
             T.reset()
-            res = check_type(built, lays, tg, 60 if tier == "quick" else 300)
+            res = check_type(built, lays, tg, 60 if tier == "quick" else 120)
             cor = check_corpus(built, tg)
             # a model of the cut, stubbed tail that the corpus does not reproduce stays inconclusive; a corpus failure is
             # the natively confirmed violation
